@@ -23,8 +23,10 @@ from vlib import sqlo
 PROP = 'C12'
 META = {
     'extractors': ['graph'],
-    'technique': ('Lean 4 proof (induction on recursion fuel over a step-by-step model of destroySelf; closure, frame and '
-                  'cache postconditions; divergence on cascade cycles) + differential correspondence on generated reference graphs'),
+    'technique': ('Lean 4 proof (induction on recursion fuel over a step-by-step model of destroySelf; closure, frame and cache '
+                  'postconditions; acyclic data => bounded rank => termination with fuel = rows+1, fuel monotonicity; simulation of the '
+                  'model by a walk of the immutable original graph = exact refusal condition; divergence on cascade cycles) + extracted '
+                  'link-row DELETE statements + differential correspondence on generated reference graphs'),
     'level_text': ('Theorems C12_*: for every schema, population and victim, a successful model destroySelf deletes exactly '
                    'the cascade closure, nulls the null-policy references to it, removes link rows on both sides, leaves '
                    'other references alone and leaves no destroyed row reachable by id; refusal is characterised exactly; '
@@ -607,6 +609,7 @@ def run(ctx):
             ctx.compare('tables after: model = raw dump', case, m[1], rows)
             ctx.compare('link tables after: model = raw dump', case, m[2], links)
             ctx.compare('ids get() still returns: model = real cache+table', case, m[3], sorted(tuple(x) for x in reach))
+            ctx.compare('outcome: walk of the original graph (trav) = destroySelf', case, m[4], outcome)
 
 
 def replay(case):
